@@ -27,6 +27,43 @@ def lib2d(path):
     print("INPROCESS-REPEAT-EQUAL", a == b)
 
 
+def lib2d_batch(*paths):
+    """Several inputs handled one after the other in ONE interpreter; each section must equal
+    what a fresh interpreter prints for that input alone."""
+    from rnapolis.common import BpSeq
+
+    for k, path in enumerate(paths):
+        b = BpSeq.from_file(path)
+        print(f"### {k}")
+        print("optimal " + b.dot_bracket.structure)
+        print("fcfs " + b.fcfs.structure)
+        for d in b.all_dot_brackets:
+            print("all " + d.structure)
+        for part in b.elements:
+            for e in part:
+                print(str(e))
+        print(str(b.without_isolated()))
+        print(str(b.without_pseudoknots()))
+
+
+def lib3d_batch(*paths):
+    from rnapolis.annotator import extract_secondary_structure
+    from rnapolis.parser import read_3d_structure
+    from rnapolis.util import handle_input_file
+
+    for k, path in enumerate(paths):
+        s = read_3d_structure(handle_input_file(path), None)
+        s2d, dbs = extract_secondary_structure(s, None, False, True)
+        print(f"### {k}")
+        print(s2d.bpseq)
+        print(s2d.extendedDotBracket)
+        print("\n".join(dbs))
+        for x in s2d.baseInteractions.basePairs + s2d.baseInteractions.stackings + s2d.baseInteractions.baseRiboseInteractions + s2d.baseInteractions.basePhosphateInteractions:
+            print(repr(x))
+        for p in s2d.interStemParameters:
+            print(repr(p))
+
+
 def lib3d(path, find_gaps):
     from rnapolis.annotator import extract_base_interactions
     from rnapolis.parser import read_3d_structure
@@ -55,6 +92,10 @@ def main():
         return lib2d(*argv)
     if what == "lib3d":
         return lib3d(*argv)
+    if what == "lib2d_batch":
+        return lib2d_batch(*argv)
+    if what == "lib3d_batch":
+        return lib3d_batch(*argv)
     import importlib
 
     mod = importlib.import_module(f"rnapolis.{what}")
